@@ -67,9 +67,20 @@ pub fn reset() {
     BUDGET_HIT.store(false, SeqCst);
 }
 
+/// Position (FEN) of the node at which the hook flipped the stop flag (`STOP_AT`).
+pub static STOP_NODE_FEN: Mutex<String> = Mutex::new(String::new());
+
 /// Called at the node-entry poll of the search, before the flag is read.
-pub fn node_poll(table: &mut TranspositionTable, flag: &AtomicBool, real_depth: u8) {
+pub fn node_poll(
+    game: &crate::chess::Game,
+    table: &mut TranspositionTable,
+    flag: &AtomicBool,
+    real_depth: u8,
+) {
     let n = POLLS.fetch_add(1, SeqCst) + 1;
+    if n == STOP_AT.load(SeqCst) {
+        *STOP_NODE_FEN.lock().unwrap_or_else(|e| e.into_inner()) = game.fen();
+    }
     MAX_REAL_DEPTH.fetch_max(real_depth as u64, SeqCst);
     if CLEAR_TABLE.load(SeqCst) {
         table.clear();
